@@ -188,17 +188,17 @@ type c18ShapeRev struct {
 
 // shapes: every kind the property names (live, tombstoned, conflicted, resurrected, branch tombstoned)
 var c18Shapes = map[string][]c18ShapeRev{
-	"live1":               {{rev: "1-a"}},
-	"live3":               {{rev: "1-a"}, {rev: "2-a", parent: "1-a"}, {rev: "3-a", parent: "2-a"}},
-	"tomb":                {{rev: "1-a"}, {rev: "2-a", parent: "1-a", del: true}},
-	"tomb-body":           {{rev: "1-a"}, {rev: "2-a", parent: "1-a", del: true, tombBody: true}},
-	"resurrected":         {{rev: "1-a"}, {rev: "2-a", parent: "1-a", del: true}, {rev: "3-a", parent: "2-a"}},
-	"conflict2":           {{rev: "1-a"}, {rev: "2-a", parent: "1-a"}, {rev: "2-b", parent: "1-a"}},
+	"live1":                {{rev: "1-a"}},
+	"live3":                {{rev: "1-a"}, {rev: "2-a", parent: "1-a"}, {rev: "3-a", parent: "2-a"}},
+	"tomb":                 {{rev: "1-a"}, {rev: "2-a", parent: "1-a", del: true}},
+	"tomb-body":            {{rev: "1-a"}, {rev: "2-a", parent: "1-a", del: true, tombBody: true}},
+	"resurrected":          {{rev: "1-a"}, {rev: "2-a", parent: "1-a", del: true}, {rev: "3-a", parent: "2-a"}},
+	"conflict2":            {{rev: "1-a"}, {rev: "2-a", parent: "1-a"}, {rev: "2-b", parent: "1-a"}},
 	"conflict2-late-loser": {{rev: "1-a"}, {rev: "2-b", parent: "1-a"}, {rev: "2-a", parent: "1-a"}},
-	"conflict3":           {{rev: "1-a"}, {rev: "2-a", parent: "1-a"}, {rev: "2-b", parent: "1-a"}, {rev: "3-a", parent: "2-a"}, {rev: "2-c", parent: "1-a"}},
-	"conflict-tombbranch": {{rev: "1-a"}, {rev: "2-a", parent: "1-a"}, {rev: "2-b", parent: "1-a"}, {rev: "3-b", parent: "2-b", del: true}},
-	"conflict-alltomb":    {{rev: "1-a"}, {rev: "2-a", parent: "1-a", del: true}, {rev: "2-b", parent: "1-a", del: true}},
-	"roots2":              {{rev: "1-a"}, {rev: "1-b"}},
+	"conflict3":            {{rev: "1-a"}, {rev: "2-a", parent: "1-a"}, {rev: "2-b", parent: "1-a"}, {rev: "3-a", parent: "2-a"}, {rev: "2-c", parent: "1-a"}},
+	"conflict-tombbranch":  {{rev: "1-a"}, {rev: "2-a", parent: "1-a"}, {rev: "2-b", parent: "1-a"}, {rev: "3-b", parent: "2-b", del: true}},
+	"conflict-alltomb":     {{rev: "1-a"}, {rev: "2-a", parent: "1-a", del: true}, {rev: "2-b", parent: "1-a", del: true}},
+	"roots2":               {{rev: "1-a"}, {rev: "1-b"}},
 }
 
 var (
